@@ -428,25 +428,33 @@ func TestVerifChainTypes(t *testing.T) {
 					}
 				case "bodycount":
 					// bodies whose extrinsic COUNT sits on a compact-mode boundary (0, 1, 63, 64, 65, 16383, 16384, 16385)
-					var v struct{ N, Fill int }
+					var v struct{ N, Fill, Len int }
 					if err := json.Unmarshal(c.O.V, &v); err != nil {
 						panic("VERIF-INFRA bodycount value")
 					}
+					if v.Len == 0 {
+						v.Len = 1
+					}
+					one := bytes.Repeat([]byte{byte(v.Fill)}, v.Len)
+					oneEnc, _ := scale.Marshal(one)
 					res.Case("bodycount", string(c.O.V))
 					want := c.Res.Scale.Bytes()
 					sig := fmt.Sprintf("C14/bodycount/%d", v.N)
+					if v.Len > 1 {
+						sig = fmt.Sprintf("C14/bodycount/%dx%d", v.N, v.Len)
+					}
 					exts := make([]Extrinsic, v.N)
 					strs := make([]string, v.N)
 					for i := range exts {
-						exts[i] = Extrinsic{byte(v.Fill)}
-						strs[i] = fmt.Sprintf("0x%02x", v.Fill)
+						exts[i] = Extrinsic(one)
+						strs[i] = "0x" + vHex(one)
 					}
 					same := func(b *Body) bool {
 						if b == nil || len(*b) != v.N {
 							return false
 						}
 						for _, e := range *b {
-							if len(e) != 1 || e[0] != byte(v.Fill) {
+							if !bytes.Equal(e, one) {
 								return false
 							}
 						}
@@ -480,7 +488,7 @@ func TestVerifChainTypes(t *testing.T) {
 					res.Cmp()
 					okEnc := err == nil && len(encExts) == v.N
 					for i := 0; okEnc && i < v.N; i++ {
-						okEnc = bytes.Equal(encExts[i], []byte{4, byte(v.Fill)})
+						okEnc = bytes.Equal(encExts[i], oneEnc)
 					}
 					if !okEnc {
 						fail("Body.AsEncodedExtrinsics", fmt.Sprintf("%d times 04%02x", v.N, v.Fill), fmt.Sprint(len(encExts), " ", err), sig+"/as-encoded-extrinsics")
